@@ -1,4 +1,5 @@
 use crate::util::*;
+pub mod frontends;
 pub mod indent;
 pub mod matching;
 pub mod navigation;
@@ -52,6 +53,8 @@ pub fn run(unit: &str, ctx: &Ctx, rng: &mut Rng, o: &mut Out) -> bool {
     "topo" => topo::unit(ctx, rng, o),
     "c13_process" => c13proj::process(ctx, rng, o),
     "navigation" => navigation::navigation(ctx, rng, o),
+    "frontends_edit" => frontends::frontends_edit(ctx, rng, o),
+    "frontends_findings" => frontends::frontends_findings(ctx, rng, o),
     "read_file" => worker::read_file(ctx, rng, o),
     "worker_trees" => worker::worker_trees(ctx, rng, o),
     "lsp_history" => lsp::lsp_history(ctx, rng, o),
@@ -89,6 +92,9 @@ pub fn exec_op(op: &str, a: &serde_json::Value) -> serde_json::Value {
     return v;
   }
   if let Some(v) = navigation::exec(op, a) {
+    return v;
+  }
+  if let Some(v) = frontends::exec(op, a) {
     return v;
   }
   if let Some(v) = worker::exec(op, a) {
